@@ -20,6 +20,7 @@ compiled `O5mSpec.encode`.
 -/
 import Osmium.Lemmas.O5mTable
 import Osmium.Lemmas.O5mSpecFile
+import Osmium.Generated.Consts
 
 namespace Osmium.O5m.C02
 
@@ -155,5 +156,12 @@ example : O5mSpec.domainOk sampleFile = true ∧
 
 example : decode {} (O5mSpec.encode { useRef := [1, 1, 0, 2], before := [2, 0, 1, 3, 5] } sampleFile)
     = .ok (O5mSpec.expectedHeader sampleFile, sampleFile.objects) := by decide +kernel
+
+/-- Tie of the o5m reference-table geometry and string limit to the CURRENT source
+    (regenerated `Generated/Consts.lean`). -/
+theorem consts_tie_o5m :
+    maxLength = Osmium.Generated.Consts.o5mMaxLength ∧ entrySize = Osmium.Generated.Consts.o5mEntrySize ∧
+    ({} : Table).n = Osmium.Generated.Consts.o5mNumberOfEntries ∧ maxOsmStringLength = Osmium.Generated.Consts.maxOsmStringLength ∧
+    Osmium.O5mSpec.tableSize = Osmium.Generated.Consts.o5mNumberOfEntries ∧ Osmium.O5mSpec.maxPair = Osmium.Generated.Consts.o5mMaxLength := by decide
 
 end Osmium.O5m.C02
